@@ -14,7 +14,7 @@ pub fn def() -> PropertyDef {
     PropertyDef {
         id: "C05",
         level: "exploration",
-        rule: "authoring programs (text, paths, images, document info) × strength {RC4-40, RC4-128, AES-128, AES-256} × writer configuration (classic / xref stream / object streams × compression) × the eight permission setters × password pairs (empty user, equal, ASCII with delimiters, Latin-1, BMP, astral, length 31/32/33, > 32 bytes). Oracle: a plaintext twin written from the same program; after unlocking with the user and, separately, the owner password the library must report is_encrypted, the same page count, the same decoded page content, the same document info and the same value of every object as the twin (object by object, canonical form), and the permission bits that were set; near-miss passwords must be refused; the encrypted file must not contain the plaintext markers; the independent reader with the reference security handler must decrypt the same file to the twin's page content and info. Non-trivial: non-empty user password or restricted permissions; distinct by hash of the case.",
+        rule: "authoring programs (text, paths, images, annotations, document info; a third of the cases with 1–3 text form fields carrying /V and /DV values) × strength {RC4-40, RC4-128, AES-128, AES-256} × writer configuration (classic / xref stream / object streams × compression) × the eight permission setters × password pairs (empty user, equal, ASCII with delimiters, Latin-1, BMP, astral, length 31/32/33, > 32 bytes). Oracle: a plaintext twin written from the same program; after unlocking with the user and, separately, the owner password the library must report is_encrypted, the same page count, the same decoded page content, the same document info and the same value of every object as the twin (object by object, canonical form), and the permission bits that were set; near-miss passwords must be refused; the encrypted file must not contain the plaintext markers; the independent reader with the reference security handler must decrypt the same file to the twin's page content and info. Non-trivial: non-empty user password or restricted permissions; distinct by hash of the case.",
         assumptions: &[
             "passwords for revisions 2–4 are compared on their first 32 bytes (Algorithm 2 pads/truncates), so near-miss passwords differ within that prefix; for AES-256 within the first 127 bytes",
             "the independent reader tries the password's UTF-8 bytes and, for non-ASCII passwords, its Latin-1/PDFDocEncoding bytes",
